@@ -97,6 +97,13 @@ class ExcObj:
         return f"<{self.name} @{self.origin}>"
 
 
+class OneShot(list):
+    """What zip(), map(), filter(), reversed(), enumerate(), iter() and generator expressions return:
+    an iterator.  Its items are computed eagerly, but it can be consumed only once -- a second pass over
+    the same object sees nothing, as in Python."""
+    used = False
+
+
 class UStr(str):
     """A string handed in by the (modelled) caller.  Every UStr is its own object, as strings
     built at run time are: code that compares names with `is` instead of `==`, or relies on
